@@ -401,6 +401,11 @@ fn evaluate(run: &Run, c: &Case) -> Verdict {
             let want = git_status(root, mode);
             let got = match vkit::catch(|| gix_status(root, mode)) {
                 Ok(Ok(g)) => g,
+                Ok(Err(e)) => {
+                    let class = if c.ops[..step].contains(&Op::DirToFile) && want.contains("D d/b") { "gix-error-parent-became-file" } else { "gix-error" };
+                    return bad(class, format!("after {:?} (step {step}) mode {mode:?}: gix status failed: {e}; git: {want:?}", &c.ops[..step]));
+                }
+                #[allow(unreachable_patterns)]
                 Ok(Err(e)) => return bad("gix-error", format!("step {step} mode {mode:?}: gix status failed: {e}; git: {want:?}")),
                 Err(p) => return bad("panic", format!("step {step} mode {mode:?}: {p}")),
             };
@@ -462,6 +467,38 @@ pub fn run(run: &'static Run) {
         },
         |c: &Case| evaluate(run, c),
     );
-    run.require("a racily clean edit was explored and judged equal", run.outcome_count("agree:M/stealth-edit-racy") > 0);
-    run.require("an undetectable (non-racy) stealth edit was explored", run.outcome_count("agree:clean/stealth-edit-nonracy") > 0);
+    require_unless_capped(run, "a racily clean edit was explored and judged equal", run.outcome_count("agree:M/stealth-edit-racy") > 0);
+    require_unless_capped(run, "an undetectable (non-racy) stealth edit was explored", run.outcome_count("agree:clean/stealth-edit-nonracy") > 0);
+}
+
+/// Developer aid: `g-repo --c49-debug <index_age> <op-json>...` prints what both sides say after each step.
+pub fn debug_main(args: &[String]) -> ! {
+    vkit::scratch::init();
+    let index_age: i8 = args[0].parse().unwrap();
+    let ops: Vec<Op> = args[1..].iter().map(|a| serde_json::from_str(a).unwrap()).collect();
+    let c = Case { index_age, ops };
+    let dir = setup(&c);
+    for step in 0..=c.ops.len() {
+        if step > 0 {
+            println!("apply {:?}: {:?}", c.ops[step - 1], apply(dir.path(), c.ops[step - 1]));
+        }
+        for mode in [Mode::No, Mode::Normal, Mode::All] {
+            println!("  {mode:?} git {:?}\n  {mode:?} gix {:?}", git_status(dir.path(), mode), gix_status(dir.path(), mode));
+        }
+    }
+    let idx = gix::index::File::at(dir.join(".git/index"), gix::hash::Kind::Sha1, false, Default::default()).unwrap();
+    println!("index timestamp {:?}", idx.timestamp());
+    for e in idx.entries() {
+        println!("{:?} {:?}", e.path(&idx), e.stat);
+    }
+    println!("a on disk: {:?}", gix::index::entry::Stat::from_fs(&gix::index::fs::Metadata::from_path_no_follow(&dir.join("a")).unwrap()));
+    std::mem::forget(dir);
+    std::process::exit(0)
+}
+
+/// Vacuity guards only make sense for runs that were not cut short by the time budget (then evidence says exhaustive=false).
+fn require_unless_capped(run: &Run, what: &str, cond: bool) {
+    if !run.over_budget() {
+        run.require(what, cond);
+    }
 }
